@@ -177,6 +177,9 @@ func mkPool(p Pool) *v1.NodePool {
 		np.Spec.Disruption.ConsolidateAfter = v1.MustParseNillableDuration("Never")
 	}
 	np.Spec.Disruption.ConsolidationPolicy = v1.ConsolidationPolicy(p.Policy)
+	if p.TGP != nil {
+		np.Spec.Template.Spec.TerminationGracePeriod = &metav1.Duration{Duration: time.Duration(*p.TGP)}
+	}
 	return np
 }
 
